@@ -404,6 +404,19 @@ pub fn run_case(tape: &mut Tape, _tier: Tier, _p: &CaseParams) -> CaseOutcome {
       }
     }
   }
+  if let Some((spec, ta, tc)) = jsr_redirect_difference(&b1.obs, &b2.obs) {
+    out.violation(
+      "C17",
+      "pruned-equals-code-only",
+      "jsr-version-selection-differs-between-kinds",
+      format!(
+        "{} redirects to {} in the full graph (kept by prune_types) and to {} in the code-only build",
+        spec, ta, tc
+      ),
+      ctx(json!({"spec": spec})),
+    );
+    return out;
+  }
   let sp = structure_of(&pruned);
   // Entries of the code-only build that nothing reaches any more (their only
   // importer became an error after its dependencies had been visited, e.g. a
